@@ -1,4 +1,4 @@
-import GomlVerif.Lemmas.GoCompArr
+import GomlVerif.Lemmas.GoCompVec
 /-!
 Forward simulation `Sem` (ANF) ⟶ `Go.Sem` (output of `GoCompile`) for stage (a): statements of the
 induction (`SimAt n`, one field per mutually dependent statement, indexed by the `Sem` fuel) and the
@@ -28,6 +28,8 @@ structure Link (env : Env) (file : AFile) (G : List String) (P : Prog) (F : GFil
   tupGo : ∀ ts, tupleTyOK env file (.tuple ts) = true → TupLink F ts
   arrSrc : ∀ b, b ∈ arrNames → P.findFn b = none
   arrGo : ∀ len e, arrTyOK env file (.array len e) = true → ArrLink F len e
+  vecSrc : ∀ b, b ∈ vecNames → P.findFn b = none
+  vecGo : VecLink F
   ty : TyLink env F
 
 /-- the function table of the heap context is `fnSigs file G`, and the Go name of every function in it is one of `Bad`
@@ -37,7 +39,7 @@ structure FCtx (file : AFile) (G : List String) (Bad : List String) (η : Hp) : 
   bad : ∀ e, e ∈ η.fns → vn e.1 ∈ Bad
 
 theorem FCtx.mono {file : AFile} {G Bad : List String} {η η' : Hp} (h : FCtx file G Bad η) (hle : η.le η') : FCtx file G Bad η' :=
-  ⟨by rw [hle.2.2]; exact h.eq, fun e he => h.bad e (by rw [← hle.2.2]; exact he)⟩
+  ⟨by rw [hle.2.2.1]; exact h.eq, fun e he => h.bad e (by rw [← hle.2.2.1]; exact he)⟩
 
 theorem FCtx.rel {file : AFile} {G Bad : List String} {η : Hp} (h : FCtx file G Bad η) {gρ : GEnv}
     (hgood : ∀ y, y ∈ keys gρ → ¬ y ∈ Bad) : FnRel file G η gρ :=
@@ -68,7 +70,7 @@ def TgtOK (m : Mode) (Γ : Ctx) (gρ : GEnv) (ty : Ty) : Prop :=
 
 /-- what a run of the compiled statements `S` must do, given what the `Sem` run did -/
 def Concl (env : Env) (η : Hp) (F : GFile) (S : List GStmt) (m : Mode) (gρ : GEnv) (gw : GWorld) (ty : Ty) : Res Val → Prop
-  | .ok v w' => ∃ η', η.le η' ∧ ∃ D gv gw', BlockS F gρ gw S (.ok (D ++ post m gρ gv, .normal) gw') ∧ toGV env η' v = some gv ∧
+  | .ok v w' => ∃ η', η.le η' ∧ ∃ D gv gw', BlockS F gρ gw S (.ok (D ++ post m gρ gv, .normal) gw') ∧ VRel env η' v ty gv ∧
       HasTy env η' v ty ∧ WRel env η' w' gw' ∧ (∀ y, y ∈ keys D → y ∈ ndDecls S)
   | .fail (.panic k) w' => ∃ η', η.le η' ∧ ∃ gw', BlockS F gρ gw S (.fail (.panic k) gw') ∧ WRel env η' w' gw'
   | _ => True
@@ -96,14 +98,14 @@ def mayPanicC : CExpr → Bool
     cannot touch the world, and then the `Sem` world after it is the one before (`w`); only the forms
     of `mayPanic` panic -/
 def ConclV (env : Env) (η : Hp) (F : GFile) (e : GExpr) (gρ : GEnv) (gw : GWorld) (ty : Ty) (pure mayPanic : Bool) (w : World) : Res Val → Prop
-  | .ok v w' => ∃ η', η.le η' ∧ ∃ gv gw', EvS F gρ gw e (.ok gv gw') ∧ toGV env η' v = some gv ∧ HasTy env η' v ty ∧ WRel env η' w' gw' ∧
+  | .ok v w' => ∃ η', η.le η' ∧ ∃ gv gw', EvS F gρ gw e (.ok gv gw') ∧ VRel env η' v ty gv ∧ HasTy env η' v ty ∧ WRel env η' w' gw' ∧
       (pure = true → w' = w ∧ η' = η)
   | .fail (.panic k) w' => ∃ η', η.le η' ∧ ∃ gw', EvS F gρ gw e (.fail (.panic k) gw') ∧ WRel env η' w' gw' ∧ mayPanic = true
   | _ => True
 
 /-- a call: `Sem.apply` of a named function against `callG` of its Go name -/
 def ConclCall (env : Env) (η : Hp) (F : GFile) (gname : String) (gvs : List GVal) (gw : GWorld) (ty : Ty) : Res Val → Prop
-  | .ok v w' => ∃ η', η.le η' ∧ ∃ gv gw', CallS F gw (.func gname) gvs (.ok gv gw') ∧ toGV env η' v = some gv ∧ HasTy env η' v ty ∧
+  | .ok v w' => ∃ η', η.le η' ∧ ∃ gv gw', CallS F gw (.func gname) gvs (.ok gv gw') ∧ VRel env η' v ty gv ∧ HasTy env η' v ty ∧
       WRel env η' w' gw'
   | .fail (.panic k) w' => ∃ η', η.le η' ∧ ∃ gw', CallS F gw (.func gname) gvs (.fail (.panic k) gw') ∧ WRel env η' w' gw'
   | _ => True
@@ -163,7 +165,7 @@ def SimL (n : Nat) : Prop :=
 /-- what the selected clause of a `switch` / type switch must do (the clauses are nested blocks:
     nothing they declare survives) -/
 def ConclSw (env : Env) (η : Hp) (run : GRes (GEnv × Sig) → Prop) (m : Mode) (gρ : GEnv) (ty : Ty) : Res Val → Prop
-  | .ok v w' => ∃ η', η.le η' ∧ ∃ gv gw', run (.ok (post m gρ gv, .normal) gw') ∧ toGV env η' v = some gv ∧ HasTy env η' v ty ∧
+  | .ok v w' => ∃ η', η.le η' ∧ ∃ gv gw', run (.ok (post m gρ gv, .normal) gw') ∧ VRel env η' v ty gv ∧ HasTy env η' v ty ∧
       WRel env η' w' gw'
   | .fail (.panic k) w' => ∃ η', η.le η' ∧ ∃ gw', run (.fail (.panic k) gw') ∧ WRel env η' w' gw'
   | _ => True
@@ -184,7 +186,7 @@ def SimME (n : Nat) : Prop :=
     (gρ : GEnv) (gw : GWorld) (Bad : List String) (x en : String) (i : Nat) (vs : List Val) (gv : GVal),
     fragArms env file G Γ K (.enumK x (.enum en)) ty arms = true → fragD env file G Γ K ty d = true →
     EnvRel env η Γ ρ gρ → KRel K ρ → WRel env η w gw →
-    Sem.lookupEnv ρ x = some (.enumV en i vs) → HasTy env η (.enumV en i vs) (.enum en) → toGV env η (.enumV en i vs) = some gv →
+    Sem.lookupEnv ρ x = some (.enumV en i vs) → HasTy env η (.enumV en i vs) (.enum en) → VRel env η (.enumV en i vs) (.enum en) gv →
     GInvN Bad (armDecls (compileArms env m st arms).1 ++ optDecls (compileDflt env m (compileArms env m st arms).2 d).1) gρ →
     TgtOK m Γ gρ ty → "_" ∈ Bad → FCtx file G Bad η → (∀ c, c ∈ calleesArms (Γ.map (·.1)) arms ++ calleesD (Γ.map (·.1)) d → c ∈ Bad) →
     ConclSw env η (TSwS F gρ gw gv (typeCases env (compileArms env m st arms).1) (compileDflt env m (compileArms env m st arms).2 d).1)
@@ -195,7 +197,7 @@ def SimMV (n : Nat) : Prop :=
   ∀ (m : Mode) (st : St) (arms : List AArm) (d : ADflt) (ty sty : Ty) (η : Hp) (Γ : Ctx) (K : KCtx) (ρ : Sem.Env) (w : World)
     (gρ : GEnv) (gw : GWorld) (Bad : List String) (v : Val) (gv : GVal),
     switchTy sty = true → fragArms env file G Γ K (.valK sty) ty arms = true → fragD env file G Γ K ty d = true →
-    EnvRel env η Γ ρ gρ → KRel K ρ → WRel env η w gw → HasTy env η v sty → toGV env η v = some gv →
+    EnvRel env η Γ ρ gρ → KRel K ρ → WRel env η w gw → HasTy env η v sty → VRel env η v sty gv →
     GInvN Bad (armDecls (compileArms env m st arms).1 ++ optDecls (compileDflt env m (compileArms env m st arms).2 d).1) gρ →
     TgtOK m Γ gρ ty → "_" ∈ Bad → FCtx file G Bad η → (∀ c, c ∈ calleesArms (Γ.map (·.1)) arms ++ calleesD (Γ.map (·.1)) d → c ∈ Bad) →
     ConclSw env η (SwS F gρ gw gv (valueCases (matchKind sty) (compileArms env m st arms).1) (compileDflt env m (compileArms env m st arms).2 d).1)
